@@ -404,7 +404,13 @@ class FileStorage(
         with the index.  Any invalid record records or inconsistent
         object positions cause zero to be returned.
         """
-        r = self._check_sanity(index, pos)
+        try:
+            r = self._check_sanity(index, pos)
+        except Exception:
+            # The index is only a cache: if checking it against the
+            # data file fails in any way, it cannot be trusted.
+            logger.exception("Error checking index for %s", self._file_name)
+            r = 0
         if not r:
             logger.warning("Ignoring index for %s", self._file_name)
         return r
